@@ -16,6 +16,7 @@ pub const ALL: &[(&str, Scenario)] = &[
     ("restart", life::restart),
     ("pool", life::pool),
     ("teardown", life::teardown),
+    ("pool-wrap", life::pool_wrap),
     ("composite", composite::composite),
     ("build", build::build),
     ("inotify", inotify::inotify),
